@@ -95,8 +95,15 @@ def gen_cases(ctx, rng):
     for _ in range(nconc):
         nw = rng.range(1, 12)
         sizes = [0 if rng.chance(1, 12) else rng.range(1, 40) for _ in range(nw)]
-        cases.append({"writes": make_writes(sizes), "ops": [], "conc": True, "cap": rng.choice([0, 0, 1, 2, 5, 64]),
-                      "reads": [rng.range(1, 50) for _ in range(rng.range(1, 4))]})
+        c = {"writes": make_writes(sizes), "ops": [], "conc": True, "cap": rng.choice([0, 0, 1, 2, 5, 64]),
+             "reads": [rng.range(1, 50) for _ in range(rng.range(1, 4))]}
+        if rng.chance(1, 3):
+            # an interrupt made pending before every k-th read, so that data and interrupt are ready for the same Read: an interrupted
+            # read is repeated, and nothing may be lost whichever arm the select takes
+            c["intr_every"] = rng.choice([1, 1, 2, 3])
+            c["cap"] = rng.choice([1, 2, 5, 64])
+            stats["interrupt_racing_with_data"] = stats.get("interrupt_racing_with_data", 0) + 1
+        cases.append(c)
         stats["concurrent"] += 1
     return cases, stats
 
